@@ -26,7 +26,8 @@ theorem absent_everywhere {s : State} {id : Id} (hi : Inv s) (hna : s.a.lookup i
     (∀ b, id ∉ (s.p.bwd.lookup b).getD []) ∧ (∀ j, id ∉ (s.p.fwd.lookup j).getD []) ∧
     (∀ b, cnt s.rc.bwd b id = none) ∧ (∀ j, cnt s.rc.fwd j id = none) ∧
     s.g.fwd.lookup id = none ∧ s.g.bwd.lookup id = none ∧ s.p.fwd.lookup id = none ∧ s.p.bwd.lookup id = none ∧
-    s.rc.fwd.lookup id = none ∧ s.rc.bwd.lookup id = none ∧ s.thg.lookup id = none := by
+    s.rc.fwd.lookup id = none ∧ s.rc.bwd.lookup id = none ∧ s.thg.lookup id = none ∧
+    (∀ v, s.uColour.lookup v ≠ some id) := by
   have ha : s.aEx id = false := by simp [State.aEx, hna]
   have hb : s.bEx id = false := by simp [State.bEx, hnb]
   have hc : s.cEx id = false := by simp [State.cEx, hna]
@@ -40,7 +41,7 @@ theorem absent_everywhere {s : State} {id : Id} (hi : Inv s) (hna : s.a.lookup i
   have p2 : s.p.bwd.lookup id = none := none_of hb (fun l hl => hi.p.bwdDom id l hl)
   have r1 : s.rc.fwd.lookup id = none := none_of ha (fun l hl => hi.rc.fwdDom id l hl)
   have r2 : s.rc.bwd.lookup id = none := none_of hb (fun l hl => hi.rc.bwdDom id l hl)
-  refine ⟨?_, ?_, ?_, ?_, ?_, ?_, ?_, ?_, ?_, ?_, ?_, ?_, g1, g2, p1, p2, r1, r2, ?_⟩
+  refine ⟨?_, ?_, ?_, ?_, ?_, ?_, ?_, ?_, ?_, ?_, ?_, ?_, g1, g2, p1, p2, r1, r2, ?_, ?_⟩
   · intro v h; obtain ⟨_, e, he, _⟩ := (hi.uName v id).1 h; rw [hna] at he; cases he
   · intro v h; obtain ⟨_, e, he, _⟩ := (hi.uAlias v id).1 h; rw [hna] at he; cases he
   · intro v h; obtain ⟨_, e, he, _⟩ := (hi.uCode v id).1 h; rw [hna] at he; cases he
@@ -54,6 +55,7 @@ theorem absent_everywhere {s : State} {id : Id} (hi : Inv s) (hna : s.a.lookup i
   · intro b; rw [← hi.rc.agree]; simp [cnt, r1]
   · intro j; rw [hi.rc.agree]; simp [cnt, r2]
   · exact none_of hb (fun l hl => hi.thgDom id l hl)
+  · intro v h; obtain ⟨_, e, he, _⟩ := (hi.uColour v id).1 h; rw [hna] at he; cases he
 
 /-- `fkAfter` writes back-reference buckets only -/
 theorem fkAfter_frame {ic : Bool} {old new : Bytes} {id : Id} {s s' : State} (hfk : fkAfter ic old new id s = .ok s') :
@@ -76,7 +78,7 @@ theorem fkAfter_frame {ic : Bool} {old new : Bytes} {id : Id} {s s' : State} (hf
 
 /-- the entity tables after a successful `A.Create` -/
 theorem createA_entity {s s' : State} {id : Id} {v : ValsA} (h : createA s id v = .ok s') :
-    s'.a = s.a.insert id ⟨v.name, v.alias, setOf v.roles, v.owner, v.dep, v.boss, none⟩ ∧ s'.b = s.b := by
+    s'.a = s.a.insert id ⟨v.name, v.alias, setOf v.roles, v.owner, v.dep, v.boss, none, none⟩ ∧ s'.b = s.b := by
   unfold createA at h
   split at h
   · cases h
@@ -237,12 +239,12 @@ theorem createA_accepts_iff {s : State} {id : Id} {v : ValsA} (hi : Inv s) (hid 
     cases hgl : s.g.fwd.lookup id with
     | none => rfl
     | some l => have := hi.g.fwdDom id l hgl; simp [State.aEx, hna] at this
-  have hg1 : LinkInv s.g ({ s with hasA := true, a := s.a.insert id ⟨v.name, v.alias, setOf v.roles, v.owner, v.dep, v.boss, none⟩ } : State).aEx ({ s with hasA := true, a := s.a.insert id ⟨v.name, v.alias, setOf v.roles, v.owner, v.dep, v.boss, none⟩ } : State).bEx :=
+  have hg1 : LinkInv s.g ({ s with hasA := true, a := s.a.insert id ⟨v.name, v.alias, setOf v.roles, v.owner, v.dep, v.boss, none, none⟩ } : State).aEx ({ s with hasA := true, a := s.a.insert id ⟨v.name, v.alias, setOf v.roles, v.owner, v.dep, v.boss, none, none⟩ } : State).bEx :=
     hi.g.mono (aEx_insert_mono rfl) (fun _ h => h)
   have hlinks := LinkPair.setLinks_fresh_ok_iff (req := v.groups) hg1 (aEx_insert_self rfl) hg
   unfold createA AcceptableA
   simp only [hid, if_false, hna, Option.isSome_none, Bool.false_eq_true, bind, Except.bind, setGroups, pure, Except.pure]
-  cases hsl : s.g.setLinks ({ s with hasA := true, a := s.a.insert id ⟨v.name, v.alias, setOf v.roles, v.owner, v.dep, v.boss, none⟩ } : State).bEx
+  cases hsl : s.g.setLinks ({ s with hasA := true, a := s.a.insert id ⟨v.name, v.alias, setOf v.roles, v.owner, v.dep, v.boss, none, none⟩ } : State).bEx
       id v.groups with
   | error x =>
     have hno : ¬ ∀ k, k ∈ v.groups → s.bEx k = true := by
@@ -253,17 +255,17 @@ theorem createA_accepts_iff {s : State} {id : Id} {v : ValsA} (hi : Inv s) (hid 
     have hgr : ∀ k, k ∈ v.groups → s.bEx k = true := hlinks.1 ⟨g', hsl⟩
     simp only [afterUpdateA, Map.lookup_insert, if_true, evName, evAlias, evRoles, evOwner, evDep, evBoss, Captured.none, bind,
       Except.bind]
-    have hbx : ({ s with hasA := true, a := s.a.insert id ⟨v.name, v.alias, setOf v.roles, v.owner, v.dep, v.boss, none⟩, g := g' } : State).aEx (v.boss.getD []) = true ↔
+    have hbx : ({ s with hasA := true, a := s.a.insert id ⟨v.name, v.alias, setOf v.roles, v.owner, v.dep, v.boss, none, none⟩, g := g' } : State).aEx (v.boss.getD []) = true ↔
         (v.boss.getD [] = id ∨ s.aEx (v.boss.getD []) = true) := by
       simp only [State.aEx, Map.lookup_insert]
       by_cases hbi : v.boss.getD [] = id
       · simp [hbi]
       · simp [hbi]
-    cases hbo : bossAfter true [] (v.boss.getD []) ({ s with hasA := true, a := s.a.insert id ⟨v.name, v.alias, setOf v.roles, v.owner, v.dep, v.boss, none⟩, g := g' } : State) with
+    cases hbo : bossAfter true [] (v.boss.getD []) ({ s with hasA := true, a := s.a.insert id ⟨v.name, v.alias, setOf v.roles, v.owner, v.dep, v.boss, none, none⟩, g := g' } : State) with
     | error x =>
       simp only [false_iff, reduceCtorEq, exists_false]
       intro h
-      have : bossAfter true [] (v.boss.getD []) ({ s with hasA := true, a := s.a.insert id ⟨v.name, v.alias, setOf v.roles, v.owner, v.dep, v.boss, none⟩, g := g' } : State) = .ok () := by
+      have : bossAfter true [] (v.boss.getD []) ({ s with hasA := true, a := s.a.insert id ⟨v.name, v.alias, setOf v.roles, v.owner, v.dep, v.boss, none, none⟩, g := g' } : State) = .ok () := by
         rw [bossAfter_create_ok_iff, hbx]; exact h.1
       rw [hbo] at this; cases this
     | ok u =>
@@ -322,11 +324,11 @@ theorem createA_accepts_iff {s : State} {id : Id} {v : ValsA} (hi : Inv s) (hid 
             · rcases ha' with ⟨h, _⟩ | ⟨_, h⟩
               · exact Or.inl h
               · exact Or.inr h
-          cases hfk : fkAfter true [] (v.owner.getD []) id ({ s with hasA := true, a := s.a.insert id ⟨v.name, v.alias, setOf v.roles, v.owner, v.dep, v.boss, none⟩, g := g', uName := un, uAlias := ua, sRoles := sr } : State) with
+          cases hfk : fkAfter true [] (v.owner.getD []) id ({ s with hasA := true, a := s.a.insert id ⟨v.name, v.alias, setOf v.roles, v.owner, v.dep, v.boss, none, none⟩, g := g', uName := un, uAlias := ua, sRoles := sr } : State) with
           | error x =>
             have : ¬ (v.owner.getD [] = [] ∨ s.bEx (v.owner.getD []) = true) := by
               intro h
-              obtain ⟨t, ht⟩ := (fkAfter_create_ok_iff (id := id) (s := ({ s with hasA := true, a := s.a.insert id ⟨v.name, v.alias, setOf v.roles, v.owner, v.dep, v.boss, none⟩, g := g', uName := un, uAlias := ua, sRoles := sr } : State))).2 h
+              obtain ⟨t, ht⟩ := (fkAfter_create_ok_iff (id := id) (s := ({ s with hasA := true, a := s.a.insert id ⟨v.name, v.alias, setOf v.roles, v.owner, v.dep, v.boss, none, none⟩, g := g', uName := un, uAlias := ua, sRoles := sr } : State))).2 h
               rw [hfk] at ht; cases ht
             simp only [false_iff, reduceCtorEq, exists_false]
             intro h; exact this h.2.2.2.2.2.2.1
